@@ -45,6 +45,36 @@ pub open spec fn bolt12_sig_ok(s: Signature, h: TaggedHash, k: PublicKey) -> boo
 //@ensures P C18 a-bolt12-signature-verifies-only-as-a-schnorr-signature-over-the-tagged-hash-digest-under-the-given-key
     r is Ok <==> bolt12_sig_ok(*signature, *message, pubkey),
 //@end
+// signing: whatever the signer callback answers, only a signature that verifies under the signing key over the message's tagged hash is handed back
+pub enum SignError { Signing, Verification(SecpError) }
+pub struct Signer { pub id: u64 }
+pub uninterp spec fn signer_answers(f: Signer, m: TaggedHash) -> Result<Signature, ()>;
+impl Signer { #[verifier::external_body] pub fn sign(&self, message: &TaggedHash) -> (r: Result<Signature, ()>) ensures r == signer_answers(*self, *message) { unimplemented!() } }
+impl TaggedHash { pub fn as_ref(&self) -> (r: &TaggedHash) ensures r == self { self } }
+//@extract lightning/src/offers/merkle.rs :: fn sign_message
+//@strip secp256k1
+//@rw R5
+    pub fn sign_message<F, T>(f: F, message: &T, pubkey: PublicKey) -> Result<Signature, SignError> where F: SignFn<T>, T: AsRef<TaggedHash>,
+//@with
+    pub fn sign_message(f: Signer, message: &TaggedHash, pubkey: PublicKey) -> Result<Signature, SignError>
+//@rw R9
+    .map_err(|()| SignError::Signing)?
+//@with
+    .map_err(|__u: ()| -> (e: SignError) ensures e is Signing { SignError::Signing })?
+//@rw R9
+    .map_err(|e| SignError::Verification(e))?
+//@with
+    .map_err(|e: SecpError| -> (x: SignError) ensures x is Verification { SignError::Verification(e) })?
+//@ret r
+//@ensures P C18 a-bolt12-signature-is-handed-back-by-sign-message-only-if-it-verifies-under-the-signing-key-over-the-messages-tagged-hash
+    r is Ok ==> signer_answers(f, *message) == Ok::<Signature, ()>(r->Ok_0) && bolt12_sig_ok(r->Ok_0, *message, pubkey),
+    signer_answers(f, *message) is Err ==> r is Err && r->Err_0 is Signing,
+    signer_answers(f, *message) is Ok && !bolt12_sig_ok(signer_answers(f, *message)->Ok_0, *message, pubkey) ==> r is Err && r->Err_0 is Verification,
+//@mutant signature_returned_without_being_checked
+    secp_ctx.verify_schnorr(&signature, digest, &pubkey).map_err(|e| SignError::Verification(e))?;
+//@with
+
+//@end
 pub mod merkle { pub use super::verify_signature; }
 pub enum Bolt12SemanticError { MissingSignature }
 pub enum Bolt12ParseError { InvalidSemantics(Bolt12SemanticError), InvalidSignature(SecpError) }
